@@ -358,6 +358,36 @@ fn many_edges(run: &Run, q: bool) {
         let c = Case { w, h, ops };
         eval_case(run, 900_000 + s, &c, l, &BOTH_AA, &BOTH_RULES);
     });
+    // high winding numbers: n coincident (or quarter-staggered) same-direction squares; the
+    // winding number reaches n (8-bit counters wrap at 128 / 256)
+    let counts: Vec<i32> = if q { vec![127, 128, 129, 256, 257] } else { vec![2, 3, 64, 127, 128, 129, 255, 256, 257, 300, 513] };
+    run.bound("high-winding", format!("n coincident squares and n quarter-staggered squares for n in {:?}, clockwise and counter-clockwise, partly left of the surface or inside, 4x3 surface, both rules, both antialias modes", counts));
+    run.par(counts.len() * 8, |s, l| {
+        let n = counts[s / 8];
+        let (stagger, ccw, left) = (s % 2 == 1, (s / 2) % 2 == 1, (s / 4) % 2 == 1);
+        let x0 = if left { -6 } else { 2 };
+        let mut ops = Vec::new();
+        for i in 0..n {
+            let d = if stagger { i % 4 } else { 0 };
+            let (a, b, c, e) = ((x0 + d, 1), (x0 + d + 9, 1), (x0 + d + 9, 10), (x0 + d, 10));
+            let v = if ccw { [a, e, c, b] } else { [a, b, c, e] };
+            ops.push(QOp::M(v[0].0, v[0].1));
+            for p in &v[1..] {
+                ops.push(QOp::L(p.0, p.1));
+            }
+            ops.push(QOp::Z);
+        }
+        l.states += ops.len() as u64;
+        let c = Case { w: 4, h: 3, ops };
+        eval_case(run, 950_000 + s, &c, l, &BOTH_AA, &BOTH_RULES);
+    });
+    // very tall and very wide surfaces: rows / columns beyond 8192 (16-bit sample-row indices)
+    {
+        let far = [-3, 32761, 32766, 32771, 32790];
+        let near = [-2, 1, 3, 6];
+        polygons(run, "i:triangles on a 1x8200 surface", 1, 8200, &grid(&near, &far), 3, false, &BOTH_AA, &BOTH_RULES);
+        polygons(run, "i:triangles on a 8200x1 surface", 8200, 1, &grid(&far, &near), 3, false, &BOTH_AA, &BOTH_RULES);
+    }
     let xs = [-3, 15981, 15990, 15995, 16001];
     let ys = [-2, 1, 3, 6];
     polygons(run, "i:triangles on a 4000x1 surface", 4000, 1, &grid(&xs, &ys), 3, false, &BOTH_AA, &BOTH_RULES);
